@@ -13,8 +13,16 @@ BASE = 1000
 KINDS = ("plain", "pay16", "jumbo")
 
 
-def mk_ev(kind, clock, tag):
+FOREIGN_END = ("VU]", "DU]", "6U]")      # other models' events that look like sort markers
+FOREIGN_START = ("6U[", "DU[", "VU[")
+
+
+def mk_ev(kind, clock, tag, foreign=False):
     mcv = "OB" + chr(ord("a") + tag % 26)
+    if foreign and tag % 2 == 0:
+        mcv = FOREIGN_END[(tag // 2 - 1) % 3]
+    elif foreign and tag % 4 == 1:
+        mcv = FOREIGN_START[(tag // 4) % 3]
     if kind == "plain":
         return (mcv, clock, b"", None)
     if kind == "pay16":
@@ -58,7 +66,7 @@ def shapes(nev, clocks, max_regions):
     return out
 
 
-def build_stream(cl, pl, tid, kinds_shift=0, head_region=False):
+def build_stream(cl, pl, tid, kinds_shift=0, head_region=False, foreign=False):
     """-> list of events (mcv, clock, payload, jumbo): OHx, the tokens with their region markers, OHe.
     Marker clocks: OU[ carries the current (outer) time, OU] the maximum clock seen so far, so that the
     sequence of out-of-region events (markers included) is non-decreasing.  With head_region the OHx
@@ -75,7 +83,7 @@ def build_stream(cl, pl, tid, kinds_shift=0, head_region=False):
     for (a, b) in sorted(pl):
         while pos < a:
             c = BASE + cl[pos]
-            evs.append(mk_ev(KINDS[(pos + kinds_shift) % 3], c, pos + 1))
+            evs.append(mk_ev(KINDS[(pos + kinds_shift) % 3], c, pos + 1, foreign))
             mx = max(mx, c)
             outer = c
             pos += 1
@@ -85,14 +93,14 @@ def build_stream(cl, pl, tid, kinds_shift=0, head_region=False):
             placed_x = True
         while pos < b:
             c = BASE + cl[pos]
-            evs.append(mk_ev(KINDS[(pos + kinds_shift) % 3], c, pos + 1))
+            evs.append(mk_ev(KINDS[(pos + kinds_shift) % 3], c, pos + 1, foreign))
             mx = max(mx, c)
             pos += 1
         outer = max(outer, mx)
         evs.append(("OU]", outer, b"", None))
     while pos < len(cl):
         c = BASE + cl[pos]
-        evs.append(mk_ev(KINDS[(pos + kinds_shift) % 3], c, pos + 1))
+        evs.append(mk_ev(KINDS[(pos + kinds_shift) % 3], c, pos + 1, foreign))
         mx = max(mx, c)
         outer = c
         pos += 1
@@ -147,6 +155,11 @@ def run(prop, tier):
         cases = []
         for (cl, pl) in sh:
             cases.append(("single", cl, pl, None))
+        # only the base model's OU[ / OU] delimit a region: every second event is a ?U[ / ?U] event of another model
+        # (these streams are sorted, re-sorted and checked with -c, not emulated: the foreign events are not nested properly)
+        for (cl, pl) in (shapes(3, (0, 1, 2), 2) if tier == "quick" else sh):
+            if pl:
+                cases.append(("foreign", cl, pl, None))
         # two streams: the second one has a region that sorts to the very beginning of its stream
         two = shapes(3, (0, 1, 2), 1) if tier == "quick" else shapes(4, (0, 1, 2), 1)
         for (cl, pl) in two:
@@ -163,6 +176,8 @@ def run(prop, tier):
                 first = build_stream((0, 1, 2, 2), ((1, 3),), 100)
                 streams.append((obs.relpath("L", 10, 100), first, True))
                 streams.append((obs.relpath("L", 10, 200), build_stream(cl, pl, 200, 1, head_region=True), False))
+            elif kind == "foreign":
+                streams.append((obs.relpath("L", 10, 100), build_stream(cl, pl, 100, foreign=True), True))
             else:
                 streams.append((obs.relpath("L", 10, 100), build_stream(cl, pl, 100), True))
             for rel, evs, first in streams:
@@ -194,6 +209,8 @@ def run(prop, tier):
             rc, o, err = emusrv.run_tool(srt, ["-c", td])
             if rc != 0:
                 return "ovnisort -c rejects the sorted trace (exit %r): %s" % (rc, err[-160:])
+            if kind == "foreign":
+                return None
             rc, o, err = emusrv.run_tool(emu, [td])
             if rc != 0:
                 e = [l for l in err.split("\n") if "ERROR" in l][:1]
@@ -244,7 +261,7 @@ def run(prop, tier):
         ctx.cov["rule"] = ("every stream OHx, <= 3-4 (quick) / 4-6 (thorough) events cycling through plain, 16-byte-payload and jumbo encodings with clocks from a small "
                            "set, every placement of <= 2 non-nested OU[ OU] regions (incl. empty ones) such that out-of-region events are sorted, OHe; plus two-stream "
                            "traces whose second stream sorts to its very beginning; each sorted by the real ovnisort (ASan+UBSan), compared with the stable sort, "
-                           "re-sorted, checked with -c and emulated; and every one-region shape with look-back sizes 3, 4, 6")
+                           "re-sorted, checked with -c and emulated; the one-stream shapes again with ?U[ / ?U] events of other models among the events (not emulated); and every one-region shape with look-back sizes 3, 4, 6")
         ctx.cov["distinct_nontrivial"] = len(cases) + len(lb)
         return ctx.finish()
     finally:
